@@ -139,6 +139,11 @@ def tdvp_(psi, H,
     else:
         raise YastnError('TDVP: tdvp method %s not recognized' % method)
 
+    if not psi.is_canonical(to='first'):
+        psi.canonize_(to='first', normalize=normalize)
+    if normalize:
+        psi.factor = 1
+
     env = None
     if yield_initial:
         yield TDVP_out(times[0], times[0], time_independent, dt, 0)
